@@ -1078,7 +1078,8 @@ pub fn normalise_rustc_message(text: &str) -> String {
         if w.is_empty() {
             return;
         }
-        let b = w.as_bytes();
+        // a patch of the generator renames `Name` to `HTTPName`
+        let b = w.strip_prefix("HTTP").filter(|r| r.len() > 2).unwrap_or(w.as_str()).as_bytes();
         let generated = (b.len() > 2 && (b[0] == b'K' || b[0] == b'X') && b[1].is_ascii_lowercase() && b[2].is_ascii_uppercase())
             || w.starts_with("Hint")
             || (w.starts_with("Rt") && w.ends_with("Root"))
